@@ -260,3 +260,245 @@ def task(cls, ctor, meth=None, a=None):
             return ["str", x]
         return ["enum", [type(x).__name__, x.name]]
     return {"cls": cls, "ctor": [enc(x) for x in ctor], "meth": meth, "arg": enc(a)}
+
+
+# ---- the same calls in another process configuration ------------------------------------------------------------------------------
+# The codecs are functions of their arguments: what a sentence means cannot depend on how the interpreter was started.  The word lists are
+# files read at run time, so the answers are asked again in fresh interpreters whose configuration differs from this one's in what file
+# reading, assertions and hashing depend on — the locale's preferred encoding (a legacy locale; here the C locale with Python's UTF-8 mode
+# and locale coercion switched off), `-OO` (asserts and docstrings stripped), another working directory, another hash seed — and compared
+# with references computed in this process (everything crosses the pipe ASCII-escaped).  Only public classes, addressed by name.
+_CONFIG_CHILD = r'''
+import json, locale, sys
+import bip_utils
+tasks = json.loads(sys.stdin.read())
+
+def arg(a):
+    if a is None: return None
+    k, v = a
+    if k == "enum": return getattr(bip_utils, v[0])[v[1]]
+    if k == "hex": return bytes.fromhex(v)
+    return v
+
+def canon(r):
+    if isinstance(r, (bytes, bytearray)): return bytes(r).hex()
+    if hasattr(r, "ToStr"): return r.ToStr()
+    return str(r)
+
+out = []
+for t in tasks:
+    try:
+        obj = getattr(bip_utils, t["cls"])(*[arg(a) for a in t["ctor"]])
+        out.append([canon(getattr(obj, t["meth"])(*([arg(t["arg"])] if t["arg"] is not None else []))) if t.get("meth") else "", ""])
+    except Exception as ex:
+        out.append(["!" + type(ex).__name__, str(ex)[:120]])
+print("\n" + json.dumps({"encoding": locale.getpreferredencoding(False), "utf8_mode": sys.flags.utf8_mode, "optimize": sys.flags.optimize,
+                         "results": out}))
+'''
+
+
+def configurations(rng):
+    """[(label, extra environment, variables removed, interpreter flags, working directory)]"""
+    return [("the locale's preferred encoding is not UTF-8 (C locale, UTF-8 mode and locale coercion off)",
+             {"LC_ALL": "C", "PYTHONUTF8": "0", "PYTHONCOERCECLOCALE": "0"}, ("LANG", "LANGUAGE", "LC_"), ["-X", "utf8=0"], None),
+            ("-OO (asserts and docstrings stripped), another working directory, another hash seed",
+             {"PYTHONHASHSEED": str(rng.randrange(1, 2 ** 32))}, (), ["-OO"], "/")]
+
+
+def in_configuration(tasks, config, timeout=120):
+    """run `tasks` (see `task`; a task without argument calls the method without one) one after the other in ONE fresh interpreter started
+    in the configuration `config` (an entry of `configurations`).  Returns (facts about the child: its preferred encoding …,
+    [[canonical result | "!ExceptionClass", detail] per task])."""
+    import json, os, subprocess, sys
+    from harness.core import VERIF, HarnessError
+    _label, extra, drop, flags, cwd = config
+    env = {k: v for k, v in os.environ.items() if not any(k == d or (d.endswith("_") and k.startswith(d)) for d in drop)}
+    env.update(extra)
+    env.update(PYTHONPATH=VERIF + ":" + os.environ.get("VERIF_REPO", "/repo"), PYTHONDONTWRITEBYTECODE="1")
+    p = subprocess.run([sys.executable] + list(flags) + ["-c", _CONFIG_CHILD], input=json.dumps(tasks), stdout=subprocess.PIPE, stderr=subprocess.PIPE,
+                       text=True, timeout=timeout, env=env, cwd=cwd)
+    if p.returncode != 0:
+        # the library could not even be imported / driven in this configuration: an answer of the implementation, not of the machinery,
+        # when the traceback ends in library code
+        if "/bip_utils/" in p.stderr:
+            return {"encoding": "?", "crashed": p.stderr[-400:]}, [["!interpreter-exit-%d" % p.returncode, p.stderr.strip().split("\n")[-1][:160]] for _ in tasks]
+        raise HarnessError("configuration child interpreter failed: " + p.stderr[-600:])
+    d = json.loads(p.stdout.strip().split("\n")[-1])
+    return {k: v for k, v in d.items() if k != "results"}, d["results"]
+
+
+# ---- one object, asked again ---------------------------------------------------------------------------------------------------------
+def coarse(f):
+    """the verdict of one call: "accepted:<canonical value>" or "refused" (which error class is a matter of each property's own clauses)"""
+    try:
+        r = f()
+    except Exception:  # noqa
+        return "refused"
+    if isinstance(r, (bytes, bytearray)):
+        r = bytes(r).hex()
+    elif hasattr(r, "ToStr"):
+        r = r.ToStr()
+    return "accepted:" + str(r)
+
+
+def history_independent(rep, label, points, script):
+    """acceptance is a property of the phrase: an object that has already been asked about other phrases — accepted ones and refused ones,
+    refused at any word position and for any reason — answers the next phrase as an object that has never been used does.
+    points = [(name, make_object, call(object, phrase))]; script = [(kind, phrase)].  Returns the number of comparisons."""
+    n = 0
+    for name, make, call in points:
+        kept = make()
+        past = []
+        for kind, phrase in script:
+            n += 1
+            got = coarse(lambda: call(kept, phrase))
+            want = coarse(lambda: call(make(), phrase))
+            if got != want:
+                rep("%s: %s answers a phrase (%s) differently from a fresh object after having been asked about other phrases (%s)" % (
+                    label, name, kind, ", then ".join(k for k, _p in past[-3:]) or "none"),
+                    " || ".join([p if isinstance(p, str) else p.ToStr() for _k, p in past[-3:]] + [phrase if isinstance(phrase, str) else phrase.ToStr()]), got, want)
+                break
+            past.append((kind, phrase))
+    return n
+
+
+def mnemonic_objects_stable(rep, label, cases, forms, points, attempts=3):
+    """a phrase handed over as a Mnemonic OBJECT is the same phrase at every attempt: each observation point gives, at every one of
+    `attempts` consecutive calls on one object, the verdict it gives for the phrase as a string, and the object — and the list the
+    caller built it from — still spell the phrase afterwards (ToList, ToStr, WordsCount), so that what was accepted is what the caller holds.
+    cases = [(kind, [canonical tokens])]; forms = [(name, factory(list) -> object)]; points = [(name, call(str | object))]."""
+    n = 0
+    for kind, toks in cases:
+        text = " ".join(toks)
+        for pname, call in points:
+            want = coarse(lambda: call(text))
+            for fname, mk in forms:
+                mine = list(toks)
+                obj = mk(mine)
+                for a in range(1, attempts + 1):
+                    n += 1
+                    got = coarse(lambda: call(obj))
+                    now = (list(obj.ToList()), obj.ToStr(), obj.WordsCount(), mine)
+                    if got != want:
+                        rep("%s: %s gives for a phrase (%s) handed over as %s, at attempt %d on the same object, another verdict than for the phrase as str" % (
+                            label, pname, kind, fname, a), text, got + "   [the object now spells %d words]" % now[2], want)
+                        break
+                    if now != (list(toks), text, len(toks), list(toks)):
+                        rep("%s: %s changes the mnemonic object it is asked about (%s phrase handed over as %s): the phrase that was checked is no longer the "
+                            "phrase the caller holds" % (label, pname, kind, fname), text, "%d words: %s" % (now[2], now[1]), "%d words: %s" % (len(toks), text))
+                        break
+    return n
+
+
+# ---- spellings that another folding than the one the properties name would identify ---------------------------------------------------
+# The properties fix how a user's token is read: lower-cased, then NFKD.  A token is a spelling of a list word iff THAT reading is the
+# word.  Other foldings are near at hand in any Unicode-aware code base — full case folding (ß -> ss), upper-then-lower (ı -> i),
+# NFKC case folding, ignoring combining marks (é -> e), ignoring default-ignorable characters (soft hyphen, zero-width joiner) — and agree
+# with the named one on every list word and on ASCII.  The table below is computed with `unicodedata` and `str` methods only: for every
+# code point its named reading and its readings under the other foldings; where they differ, the code point can be substituted into a
+# list word to give a token the OTHER folding would accept.  Whether such a token IS a spelling is then decided by the named reading alone.
+_FOLDS = None
+IGNORABLE = ["\u00ad", "\u200b", "\u200c", "\u200d", "\u2060", "\ufeff", "\u034f", "\ufe0f"]      # soft hyphen, zero-width space / non-joiner / joiner, word joiner, BOM, grapheme joiner, variation selector
+
+
+def _strip_marks(s):
+    return "".join(c for c in s if not unicodedata.combining(c))
+
+
+def fold_table():
+    """({other reading: [(folding name, code point)]}, {named reading: [code point]}) over the cased / decomposable part of Unicode"""
+    global _FOLDS
+    if _FOLDS is not None:
+        return _FOLDS
+    other, same = {}, {}
+    skip = ((0x3400, 0x9FFF), (0xAC00, 0xD7A3), (0xD800, 0xF8FF), (0x17000, 0x1AFFF), (0x20000, 0x10FFFF))
+    cp = 0x80
+    while cp < 0x20000:
+        for a, b in skip:
+            if a <= cp <= b:
+                cp = b + 1
+        x = chr(cp)
+        cp += 1
+        if x.isspace() or unicodedata.category(x) in ("Cn", "Cs", "Co", "Cc", "Zs", "Zl", "Zp"):
+            continue
+        named = nfkd(x.lower())
+        if not named or any(c.isspace() for c in named):
+            continue
+        if named != x and len(named) <= 3:
+            same.setdefault(named, []).append(x)
+        for fname, alt in (("full case folding", nfkd(x.casefold())), ("upper-casing then lower-casing", nfkd(x.upper().lower())),
+                           ("NFKC then case folding", nfkd(unicodedata.normalize("NFKC", x).casefold())),
+                           ("ignoring combining marks", _strip_marks(named))):
+            if alt and alt != named and len(alt) <= 3 and not any(c.isspace() for c in alt):
+                other.setdefault(alt, []).append((fname, x))
+    _FOLDS = (other, same)
+    return _FOLDS
+
+
+def respellings(rng, word, want_kind=None):
+    """tokens made from the list word `word` by substituting one code point (or inserting an ignorable one): [(folding that would identify
+    the token with the word, token, True iff the token IS a spelling of the word — its lower-cased NFKD form is the word)]"""
+    other, same = fold_table()
+    out = []
+    for i in range(len(word)):
+        for L in (1, 2, 3):
+            sub = word[i:i + L]
+            if len(sub) < L:
+                continue
+            for fname, x in other.get(sub, ()):
+                if want_kind is None or want_kind == fname:
+                    out.append((fname, word[:i] + x + word[i + L:]))
+            if want_kind in (None, "compatibility / case form"):
+                for x in same.get(sub, ()):
+                    out.append(("compatibility / case form", word[:i] + x + word[i + L:]))
+    if want_kind in (None, "ignoring default-ignorable characters"):
+        for z in IGNORABLE:
+            i = rng.randrange(len(word) + 1)
+            out.append(("ignoring default-ignorable characters", word[:i] + z + word[i:]))
+    res = []
+    for fname, t in out:
+        if t.split() != [t]:
+            continue
+        named = nfkd(t.lower())
+        if nfkd(named.lower()) != named:
+            # not a fixed point of the named reading (e.g. U+1D5A0, a capital without lower-case mapping whose NFKD is "A"): the unchanged
+            # library applies the reading twice to str input and once to Mnemonic.FromList input, so such tokens are outside what can be
+            # compared here (reported separately)
+            continue
+        res.append((fname, t, named == word))
+    return res
+
+
+FOLD_KINDS = ["full case folding", "upper-casing then lower-casing", "NFKC then case folding", "ignoring combining marks",
+              "ignoring default-ignorable characters", "compatibility / case form"]
+
+
+def fold_candidates(rng, lists, per_kind):
+    """for every folding kind, `per_kind` (language, word index, token, is-a-spelling) drawn over all the lists given ({name: [words]})"""
+    out = []
+    names = sorted(lists)
+    for kind in FOLD_KINDS:
+        got = 0
+        for _ in range(per_kind * 60):
+            if got >= per_kind:
+                break
+            lang = names[rng.randrange(len(names))]
+            wi = rng.randrange(len(lists[lang]))
+            if kind == "full case folding" and got == 0:       # rare in the lists: look for a word this folding applies to
+                ck = ("fcf",) + tuple((l, len(lists[l]), lists[l][0]) for l in names)
+                if ck not in _CACHE:
+                    _CACHE[ck] = [(l, i) for l in names for i, w in enumerate(lists[l]) if respellings(rng, w, kind)]
+                hits = _CACHE[ck]
+                if not hits:
+                    break
+                lang, wi = hits[rng.randrange(len(hits))]
+            r = respellings(rng, lists[lang][wi], kind)
+            if not r:
+                continue
+            _k, tok, ok = r[rng.randrange(len(r))]
+            out.append((kind, lang, wi, tok, ok))
+            got += 1
+    return out
+
+
+_CACHE = {}
